@@ -14,6 +14,8 @@ for id in "$@"; do
   echo "$out" | grep -E "^(VIOLATION|KNOWN-FINDING|$id $tier)" | cut -c1-260 | head -12
 done
 git -C /repo checkout -- .
+# rebuild the harness against the clean tree so that no stale mutant binary is left behind
+/verif/check C19 quick > /dev/null 2>&1
 git -C /verif checkout -- evidence 2>/dev/null
 git -C /verif clean -fdq replays 2>/dev/null
 exit 0
